@@ -80,12 +80,26 @@ class Line(GeoBody):
 
     def __hash__(self):
         """Return hash of a Line"""
+        # Equal lines may differ in the length and the sign of the direction
+        # vector and in the support point, so hash the unit direction with a
+        # fixed sign and the moment vector sv x dv, which is the same for
+        # every support point on the line
+        dv = self.dv.normalized()
+        for coordinate in dv:
+            if abs(coordinate) > get_eps():
+                if coordinate < 0:
+                    dv = -dv
+                break
+        moment = self.sv.cross(dv)
         return hash(
             (
                 "Line",
-                round(self.dv[0], get_sig_figures()),
-                round(self.dv[1], get_sig_figures()),
-                round(self.dv[0] * self.sv[1] - self.dv[1] * self.sv[0], get_sig_figures()),
+                round(dv[0], get_sig_figures()),
+                round(dv[1], get_sig_figures()),
+                round(dv[2], get_sig_figures()),
+                round(moment[0], get_sig_figures()),
+                round(moment[1], get_sig_figures()),
+                round(moment[2], get_sig_figures()),
             )
         )
 
